@@ -5,6 +5,9 @@ package vhttp
 import (
 	"errors"
 	"io"
+
+	"golang.org/x/telemetry/internal/vrt"
+	"golang.org/x/telemetry/internal/vrt/vos"
 )
 
 type Response struct {
@@ -30,6 +33,10 @@ func Reset() { Log = nil; PostHook = nil }
 const StatusOK = 200
 
 func Post(url, contentType string, body io.Reader) (*Response, error) {
+	vrt.Yield() // a request is a scheduling point for harness threads
+	if vos.Dead {
+		return nil, vos.ErrDead
+	}
 	b, _ := io.ReadAll(body)
 	code, err := 200, error(nil)
 	if PostHook != nil {
